@@ -8,7 +8,7 @@ class ResourceMatcher(object):
         if resources is None:
             self.resources = None
         elif isinstance(self.resources, str):
-            self.resources = re.compile('^' + self.resources + '$')
+            self.resources = re.compile(self.resources)
             self.re = True
         elif isinstance(self.resources, int):
             if isinstance(datapackage, dict):
@@ -24,6 +24,6 @@ class ResourceMatcher(object):
         if self.resources is None:
             return True
         if self.re:
-            return self.resources.match(name) is not None
+            return self.resources.fullmatch(name) is not None
         else:
             return name in self.resources
